@@ -39,8 +39,9 @@ Latitude (what the statement does not fix, so the oracle does not demand it):
 8 % of the instances have some generating variables exactly zero (element absent from the generating circuit; counted as
 "regime:absent-element" in the evidence, judged like every other instance).
 Side regimes get their own mechanism keys (structural features of the instance, never seeds or values):
- - '<real-inv|imaginary-inv>-placeholder-constants'  the matrix-inversion real and imaginary tests leave hard-coded
-   1e-18 / 1e18 placeholders in C, L (real-inv) or the parallel R (imaginary-inv on admittance); instances where the
+ - '<real-inv|imaginary-inv|complex-inv>-placeholder-constants'  the matrix-inversion tests leave hard-coded 1e-18 / 1e18
+   placeholders in C, L (real-inv), the parallel R (imaginary-inv on admittance) or - any -inv test on admittance - in a
+   parallel R / L whose fitted 1/R, 1/L is exactly 0.0 (element absent from the spectrum); instances where the
    harness predicts their effect above ARTEFACT_MAX (kk_model.placeholder_artefact) are judged under that key.
  - cnls cells (Y, any options) and (Z, add_capacitance) have their own keys 'cnls-admittance-local-minimum' and
    'cnls-impedance-capacitance-local-minimum' (optimiser stalls from the fixed start values).
@@ -341,7 +342,7 @@ def check_instance(inst, route=None):
     var = np.array(inst["var"], dtype=float)
     tau = km.taus(f, n, x)
     st = km.gate_stats(f, tau, var, test, adm, add_c, add_l)
-    st["artefact"] = km.placeholder_artefact(f, Zm, test, adm, add_c)
+    st["artefact"] = km.placeholder_artefact(f, Zm, test, adm, add_c, var=var, add_l=add_l)
     inside = in_gate(test, st)
     crossed = bool(tau[0] > tau[-1])  # limits of eq. 12 cross: the documented tau_k descend
     # results are read back sorted by tau (km.circuit_variables); bring the generating side into the same order
